@@ -15,6 +15,7 @@ type prog struct {
 	Decls string `json:"decls"`
 	Call  string `json:"call"`
 	NBp   int    `json:"-"`
+	Top   bool   `json:"top,omitempty"` // Call is a top-level statement list (executed at call depth 0)
 }
 
 type gen struct {
@@ -26,6 +27,7 @@ type gen struct {
 	nbp    int
 	bpProb int
 	nclos  int
+	void   []bool // function has no result and no trailing return (falls off the end of its body)
 }
 
 func (g *gen) label() int { g.k++; return g.k }
@@ -57,7 +59,7 @@ func (g *gen) stmt(fi, lvl, ind int, inClosure bool) {
 		w("emit(%d)", g.label())
 	case x < 50:
 		callee := fi + 1 + r.Intn(g.nfun-fi-1)
-		if r.Chance(1, 4) {
+		if g.void[callee] || r.Chance(1, 4) {
 			w("%s(v %% %d)", g.fname(callee), 2+r.Intn(5))
 		} else {
 			w("v += %s(v%%%d + %d)", g.fname(callee), 2+r.Intn(4), r.Intn(3))
@@ -100,6 +102,8 @@ func (g *gen) stmt(fi, lvl, ind int, inClosure bool) {
 		g.sb.WriteString(g.ind(ind+1) + fmt.Sprintf("emit(%d)\n", g.label()))
 		if inClosure {
 			g.sb.WriteString(g.ind(ind+1) + "return a\n")
+		} else if g.void[fi] {
+			g.sb.WriteString(g.ind(ind+1) + "return\n")
 		} else {
 			g.sb.WriteString(g.ind(ind+1) + "return v\n")
 		}
@@ -139,9 +143,17 @@ func (g *gen) stmt(fi, lvl, ind int, inClosure bool) {
 // genProg: functions p<id>f0..f<n-1>; fi calls only fj with j > i (call depth <= n <= 4)
 func genProg(r *vh.Rng, pid int) *prog {
 	g := &gen{r: r, pid: pid, nfun: 1 + r.Intn(4), bpProb: []int{0, 3, 6, 10}[r.Intn(4)]}
+	g.void = make([]bool, g.nfun)
+	for fi := 1; fi < g.nfun; fi++ {
+		g.void[fi] = r.Chance(1, 4)
+	}
 	for fi := g.nfun - 1; fi >= 0; fi-- {
 		g.nclos = 0
-		fmt.Fprintf(&g.sb, "func %s(x int) int {\n", g.fname(fi))
+		if g.void[fi] {
+			fmt.Fprintf(&g.sb, "func %s(x int) {\n", g.fname(fi))
+		} else {
+			fmt.Fprintf(&g.sb, "func %s(x int) int {\n", g.fname(fi))
+		}
 		fmt.Fprintf(&g.sb, "\temit(%d)\n\tv := x\n", g.label())
 		// longer bodies near the top so that callers have > 14 statements after a call (polling of the fast loop)
 		n := 2 + r.Intn(6)
@@ -153,7 +165,17 @@ func genProg(r *vh.Rng, pid int) *prog {
 			// a function whose last statement is not a return statement in the source of a nested block
 			g.sb.WriteString("\temit(1000 + v%100)\n")
 		}
-		g.sb.WriteString("\treturn v\n}\n")
+		if g.void[fi] {
+			g.sb.WriteString("}\n")
+		} else {
+			g.sb.WriteString("\treturn v\n}\n")
+		}
 	}
-	return &prog{ID: pid, Decls: g.sb.String(), Call: fmt.Sprintf("%s(%d)", g.fname(0), r.Intn(10)), NBp: g.nbp}
+	call := fmt.Sprintf("%s(%d)", g.fname(0), r.Intn(10))
+	top := r.Chance(1, 5)
+	if top {
+		// top-level statement list: executed by an exec loop at call depth 0 that ends without a return statement
+		call = fmt.Sprintf("emit(9001); t%dv := %s; emit(9002); t%dv %% 1000", pid, call, pid)
+	}
+	return &prog{ID: pid, Decls: g.sb.String(), Call: call, NBp: g.nbp, Top: top}
 }
